@@ -1,4 +1,5 @@
 import Rangers.Proofs.Evm10Step
+import Rangers.Proofs.Evm10NoPanic
 /-!
 # C10, part 2 — jump destinations, program counter, the jump table
 
@@ -231,5 +232,123 @@ theorem pc_spec (H : Bytes → Bytes) (t : Table) (p : GasParams) (f f' : Frame)
   simp only [hj, Bool.not_false, if_true]
   split <;> simp_all [preExec] <;> omega
 
+
+
+/-! ## Memory is resized before `execute`; no Go panic branch is reachable -/
+
+/-- **Memory resize law** (interpreter.go: `memorySize = toWordSize(memSize)*32`, `mem.Resize`):
+the memory `execute` sees is the old memory grown to the word-rounded requested size — at least
+the requested size, less than one word more, a multiple of 32. -/
+theorem mem_resize_before_exec (f : Frame) (gas2 last ms sz : Nat)
+    (h : safeMul (toWordSize sz) 32 = (ms, false)) :
+    (preExec f gas2 last ms).mem.length = max f.mem.length ms ∧
+    sz ≤ ms ∧ ms < sz + 32 ∧ ms % 32 = 0 ∧
+    (preExec f gas2 last ms).mem.take f.mem.length = f.mem := by
+  obtain ⟨h1, h2⟩ := safeMul_words h
+  have h3 : ms < sz + 32 := by
+    unfold safeMul toWordSize maxUint64 at h
+    simp only [Prod.mk.injEq, decide_eq_false_iff_not] at h
+    obtain ⟨a, b⟩ := h
+    split at a <;> omega
+  refine ⟨?_, h1, h3, h2, ?_⟩
+  · simp only [preExec]
+    split
+    · exact resize_length _ _
+    · omega
+  · simp only [preExec]
+    split
+    · unfold Mem.resize; split <;> simp
+    · simp
+
+example : safeMul (toWordSize 33) 32 = (64, false) := by decide
+
+/-- the size requested for an access `[off, off+len)` with `len > 0` is exactly `off + len`
+(no uint64 wrap-around when the overflow flag is clear) -/
+theorem memsize_is_touched_end (off l : Word) (sz : Nat) (hl : lo64 l ≠ 0)
+    (h : calcMemSize64 off l = (sz, false)) : lo64 off + lo64 l = sz ∧ sz < 2 ^ 64 :=
+  calc_two hl h
+
+example : calcMemSize64 (32 : Word) (5 : Word) = (37, false) := by decide
+
+/-- Full statement: under a consistent table NO step reaches a Go run-time panic. -/
+def FullStatementNoPanic : Prop :=
+  ∀ (H : Bytes → Bytes) (t : Table) (p : GasParams) (f : Frame),
+    tableOK t = true → step H t p f ≠ .fail .goPanic
+
+/-- Proved part: every instruction whose slot has no memory-size function (arithmetic,
+comparison, bitwise, shifts, PUSH/DUP/SWAP/POP, JUMP/JUMPI/JUMPDEST/PC/MSIZE/GAS, calldata/code
+size and CALLDATALOAD): the `minStack` check covers every pop.  The ten memory-touching
+functions are covered by `mem_resize_before_exec` + `memsize_is_touched_end` at the level of
+the resize law, their per-function bounds proof is not done (see design/C10.md). -/
+theorem no_go_panic_partial (H : Bytes → Bytes) (t : Table) (p : GasParams) (f : Frame)
+    (ht : tableOK t = true)
+    (hnm : ∀ info, t.get (getOp f.code f.pc) = some info → info.memSize = .none) :
+    step H t p f ≠ .fail .goPanic :=
+  step_no_goPanic_nomem H t p f ht hnm
+
+example : tableOK (table 7) = true := tables_ok 7
+
+
+/-! ## Stack manipulation, PUSH data, hashing -/
+
+/-- DUPn pushes a copy of the n-th item (1 = top). -/
+theorem dup_spec (H : Bytes → Bytes) (f : Frame) (n : Nat) (w : Word) (hn : 0 < n)
+    (h : f.stack[n - 1]? = some w) :
+    execOp H (.dup n) f = .ok { f with stack := w :: f.stack } [] := by
+  have : n ≠ 0 := by omega
+  simp [execOp, this, h]
+
+example : ([5, 6, 7] : List Word)[2 - 1]? = some 6 := by decide
+
+/-- SWAPn exchanges the top with the item n below it and touches nothing else. -/
+theorem swap_spec (H : Bytes → Bytes) (f : Frame) (n : Nat) (top w : Word) (rest : List Word)
+    (hn : 0 < n) (hs : f.stack = top :: rest) (h : f.stack[n]? = some w) :
+    execOp H (.swap n) f = .ok { f with stack := (w :: rest).set n top } [] := by
+  have : n ≠ 0 := by omega
+  simp only [execOp, hs] at h ⊢
+  simp [this, h]
+
+example : ([5, 6, 7] : List Word)[2]? = some 7 := by decide
+
+/-- PUSHn (`makePush(size, n)`): pushes `pushValue` and advances the pc over the data. -/
+theorem push_spec (H : Bytes → Bytes) (f : Frame) (size n : Nat) :
+    execOp H (.push size n) f =
+      .ok { f with stack := pushValue f.code f.pc n :: f.stack, pc := f.pc + size } [] := rfl
+
+/-- SHA3 relative to the hash parameter `H`: the hash of the memory range, as a big-endian word. -/
+theorem sha3_spec (H : Bytes → Bytes) (f : Frame) (offset size : Word) (rest : List Word)
+    (data : Bytes) (hs : f.stack = offset :: size :: rest)
+    (hd : Mem.getPtr f.mem (lo64 offset) (lo64 size) = some data) :
+    execOp H .opSha3 f = .ok { f with stack := setBytes (H data) :: rest } [] := by
+  simp [execOp, hs, hd]
+
+example : Mem.getPtr [1, 2, 3, 4] 1 2 = some [2, 3] := by decide
+
+/-- MSTORE then MLOAD at the same offset reads back the 32 bytes written; the length and all
+other bytes are unchanged. -/
+theorem mstore_then_read (m m' : Bytes) (off : Nat) (v : Word) (h : Mem.set32 m off v = some m') :
+    m'.length = m.length ∧ Mem.getPtr m' off 32 = some (toBytes32 v) ∧
+    m'.take off = m.take off ∧ m'.drop (off + 32) = m.drop (off + 32) := by
+  unfold Mem.set32 at h
+  split at h
+  · simp at h
+  · rename_i hle
+    have hlen : (toBytes32 v).length = 32 := by simp [toBytes32]
+    simp only [Option.some.injEq] at h
+    subst h
+    have hto : (m.take off).length = off := by simp; omega
+    refine ⟨?_, ?_, ?_, ?_⟩
+    · simp [hlen]; omega
+    · unfold Mem.getPtr
+      simp only [List.length_append, hto, hlen, List.length_drop]
+      have h1 : off + 32 + (m.length - (off + 32)) > off := by omega
+      have h2 : off + 32 ≤ off + 32 + (m.length - (off + 32)) := by omega
+      simp only [show (32:Nat) ≠ 0 by omega, if_false, h1, if_true, h2]
+      rw [List.append_assoc, List.drop_append_of_le_length (by omega), List.drop_of_length_le (by omega)]
+      simp [hlen]
+    · rw [List.append_assoc, List.take_append_of_le_length (by omega), List.take_of_length_le (by omega)]
+    · have hl : (m.take off ++ toBytes32 v).length = off + 32 := by simp [hlen]; omega
+      have := List.drop_left (l₁ := m.take off ++ toBytes32 v) (l₂ := m.drop (off + 32))
+      rw [hl] at this; exact this
 
 end Rangers.Props.C10
